@@ -101,7 +101,11 @@ def main():
         prepared = {}
         for fid, f in job['files'].items():
             recs = M.split_records(f['text'])
-            prepared[fid] = (recs, M.census(recs, cfg) if f.get('census') else None)
+            cen = M.census(recs, cfg) if f.get('census') else None
+            if cen is not None and f.get('census_exclude'):
+                ex = set(f['census_exclude'])
+                cen = [(lab, idx) for lab, idx in cen if lab not in ex]
+            prepared[fid] = (recs, cen)
         seen_states = set()
         for n, (fid, fault, delivery, options) in enumerate(job['cases']):
             recs, cen = prepared[fid]
@@ -141,6 +145,11 @@ def main():
                 if key not in seen_states:
                     seen_states.add(key)
                     res['states'].append(key)
+            if job.get('report_labels') and 'labels' in out and expected is not None:
+                have = set(out['labels'])
+                res.setdefault('base_missing', {})[fid] = [l for l in expected if l not in have]
+                res.setdefault('base_expected', {})[fid] = len(expected)
+                verdict = None
             if verdict is not None:
                 res['failures'].append({'file': fid, 'fault': list(fault), 'delivery': delivery,
                                         'options': list(options), 'failure': verdict,
